@@ -11,9 +11,9 @@ import scen_actor
 import tlaval
 import vlib
 
-FIX = "FixD1 = TRUE FixD2 = TRUE FixD4 = TRUE FixD5 = TRUE FixD12 = TRUE FixD13 = TRUE FixD14 = TRUE"
+FIX = "FixD1 = TRUE FixD2 = TRUE FixD3 = TRUE FixD4 = TRUE FixD5 = TRUE FixD12 = TRUE FixD13 = TRUE FixD14 = TRUE"
 INVS = ("C02_NoOverlap C04_Lifecycle C04_SpawnRet C05_AtMostOnce C05_InOrder C05_Fresh C05_Numbered C05_Complete "
-        "C06_Alive C06_Bounded C06_CleanKF C07_DoneAfterStopKF C07_Drained C07_DrainedActed C07_ActsOnSound C07_AllDoneKF "
+        "C06_Alive C06_Bounded C06_Clean C07_DoneAfterStopKF C07_Drained C07_DrainedActed C07_ActsOnSound C07_AllDone "
         "C10_Resolvable C10_DupNoEffect C08_KidsFirstKF C08_Terminal C08_Children C08_NotDoneEarlyKF C13_Chain")
 
 A1 = {"A": {"parent": "", "kids": [], "maxRestarts": 1}}
@@ -83,7 +83,7 @@ PLAN = {
     "quick": {
         "C02": ["one_a", "one_c", "one_d", "one_f", "one_i", "pair_a"],
         "C04": ["one_a", "one_b", "one_c", "one_d", "one_g", "one_s", "pair_a"],
-        "C05": ["one_a", "one_c", "one_f", "one_g", "one_h", "one_s", "pair_a"],
+        "C05": ["one_a", "one_c", "one_f", "one_g", "one_h", "one_i", "one_s", "pair_a"],
         "C06": ["one_c", "one_d", "one_f", "one_g", "one_j", "pair_a", "pair_b"],
         "C07": ["one_a", "one_b", "one_d", "one_s", "pair_a", "chain_b"],
         "C08": ["pair_a", "pair_b", "chain_a", "chain_b", "fan_a"],
@@ -103,8 +103,8 @@ TRACE_INV = {
     "C02": ["T_C02"], "C04": ["T_C04"], "C05": ["T_C05"], "C06": ["T_C06"], "C07": ["T_C07"], "C08": ["T_C08"], "C13": ["T_C13"], "C10": ["T_C10"],
 }
 STRICT = {
-    "C06": {"T_C06_Clean_strict": "KF-PENDINGSTOP"},
-    "C07": {"T_C07_DoneAfterStop_strict": "KF-STOPRACE", "T_C07_AllDone_strict": "KF-PENDINGSTOP"},
+
+    "C07": {"T_C07_DoneAfterStop_strict": "KF-STOPRACE"},
     "C08": {"T_C08_KidsFirst_strict": "KF-ORPHAN", "T_C08_NotDoneEarly_strict": "KF-ORPHAN"},
 }
 
